@@ -17,7 +17,7 @@
 #include "lib.h"
 using namespace vf;
 using namespace bspline::operators;
-using S = QP;
+using S = vf::DefaultScalar;
 
 enum Slot { U = 0, A = 1, B = 2, C = 3, NSLOT = 4 };
 enum EffKind { COPY, MOVE, FRESH, MOVEDFROM, INPLACE };
